@@ -7,6 +7,7 @@ import (
 	"io/fs"
 	"strconv"
 	"strings"
+	"time"
 
 	"github.com/avfs/avfs"
 	"github.com/avfs/avfs/idm/memidm"
@@ -70,6 +71,29 @@ var (
 		"MkdirTemp": true, "CreateTemp": true, "WalkDir": true,
 	}
 
+	// Lesson (round 9): an effect on the base is the work of a PRIMITIVE, and the
+	// failure function must have been asked about that primitive. A composite that
+	// the property lists as "built on primitives" may consult its own id first,
+	// but between the consultation of its own id and the change of the base there
+	// has to be the consultation of a primitive id - otherwise a function that
+	// refuses the primitive (FnMkdir) and not the composite (FnMkdirTemp) is
+	// bypassed: the composite does not "fail when a primitive it is built on is
+	// made to fail", because the primitive is never put to the function. A fault
+	// plan cannot see this (it can only make fail what IS consulted): it is
+	// judged on the fault-free trace, where every change of the base state during
+	// the composite is attributed to the consultation that precedes it. Code that
+	// short-cuts to the base for SOME argument values (the empty dir / pattern
+	// that select a default) is wrong for those values only: they are letters.
+	builtOnPrimitives = map[string]bool{
+		"Create": true, "WriteFile": true, "ReadFile": true, "ReadDir": true, "Glob": true, "MkdirTemp": true,
+	}
+
+	// ids of composites: consulting one of them says nothing about the primitive that does the work
+	compositeFn = map[avfs.FnVFS]bool{
+		avfs.FnMkdirTemp: true, avfs.FnCreateTemp: true, avfs.FnReadDir: true, avfs.FnReadFile: true,
+		avfs.FnWriteFile: true, avfs.FnWalkDir: true,
+	}
+
 	// FnVFS ids that no call of the public API can make FailFS consult.
 	unreachableFn = map[avfs.FnVFS]string{
 		avfs.FnWriteFile: "FailFS.WriteFile is avfs.WriteFile over the wrapper: it consults OpenFile, FileWrite, FileClose and never FnWriteFile; no other method uses the id",
@@ -115,6 +139,7 @@ type consRec struct {
 	Part string // main | close
 	Pre  bool   // base state at consultation time == base state when the harness-level call started
 	Gen  int    // which recording function was consulted (when.go); the one installed at that moment unless the consultation is stale
+	Eff  bool   // the base state changed between this consultation and the next one (or the return) of the same harness-level call
 }
 
 func (c consRec) String() string {
@@ -130,6 +155,25 @@ type callCtx struct {
 	start   string
 	from    int
 	rec     bool // a recording failure function was installed when the call started (when.go)
+}
+
+// scribbleParam overwrites every field of the parameter block. Lesson (round
+// 9): the failure function is code of the USER's and it receives *FailParam, a
+// pointer: besides answering it may write to the block (normalise the paths in
+// place for its log, wipe it after use). The block is the function's copy of
+// the arguments - what the base executes, and what an error reports, are the
+// arguments of the caller. As fsx.Scribble does for every buffer handed to the
+// library, every recording function of the harness (recording plan, single-
+// fault plan, on whichever layer or member it is installed) overwrites the
+// whole block after reading it, whether it answers nil or E: every let-through
+// call must still behave exactly as on the twin base (outcome, tree), every
+// refused call return exactly E.
+func scribbleParam(fp *failfs.FailParam) {
+	*fp = failfs.FailParam{
+		Op: "scribbled-op", Path: "/scribbled/old", NewPath: "/scribbled/new",
+		Perm: ^fp.Perm, Flag: ^fp.Flag, Uid: -7 - fp.Uid, Gid: -7 - fp.Gid, Size: ^fp.Size,
+		ATime: time.Unix(7, 7), MTime: time.Unix(7, 7),
+	}
 }
 
 type sys struct {
@@ -165,6 +209,10 @@ type sys struct {
 	trace   []consRec
 	cur     callCtx
 	invoked map[avfs.FnVFS]bool // own ids of methods invoked directly on wrapped objects
+
+	// attribution of base effects to consultations (builtOnPrimitives)
+	lastSt   string // base state at the last consultation of the current call, or when it started
+	effFirst bool   // the base changed before the first consultation of the current call
 
 	// fault plan
 	K           int
@@ -670,9 +718,12 @@ func (s *sys) consult(gen int, _ avfs.VFSBase, fn avfs.FnVFS, fp *failfs.FailPar
 	st := baseState(s.impl.base)
 
 	s.checkPending(st, "next-consultation")
+	s.noteEffect(st)
 
 	idx := len(s.trace)
 	s.trace = append(s.trace, consRec{Fn: fn, P: renderParam(fp), Call: s.cur.Idx, Part: s.cur.Part, Pre: st == s.cur.start, Gen: gen})
+
+	scribbleParam(fp) // read, then overwritten: see scribbleParam
 
 	if gen != s.gen {
 		// the object that consults holds on to a function that SetFailFunc has replaced or removed
@@ -696,6 +747,23 @@ func (s *sys) consult(gen int, _ avfs.VFSBase, fn avfs.FnVFS, fp *failfs.FailPar
 	}
 
 	return nil
+}
+
+// noteEffect attributes a change of the base state since the last consultation
+// (or since the harness-level call started) to the consultation that precedes
+// it; now is the base state at this moment (builtOnPrimitives).
+func (s *sys) noteEffect(now string) {
+	if now == s.lastSt {
+		return
+	}
+
+	s.lastSt = now
+
+	if n := len(s.trace); n > s.cur.from {
+		s.trace[n-1].Eff = true
+	} else {
+		s.effFirst = true
+	}
 }
 
 func (s *sys) sig(ctx callCtx, kind, want, got string) map[string]string {
@@ -756,6 +824,7 @@ func (s *sys) beginCall(ctx callCtx) {
 	ctx.from = len(s.trace)
 	ctx.rec = s.gen >= 0
 	s.cur = ctx
+	s.lastSt, s.effFirst = ctx.start, false
 }
 
 // endCall applies the per-call oracles of the okfunc plan (every directly
@@ -771,6 +840,10 @@ func (s *sys) endCall(r result) {
 
 	switch s.plan {
 	case "okfunc":
+		if ctx.rec && ctx.Via != "file" && builtOnPrimitives[ctx.Method] {
+			s.checkEffects(ctx, r)
+		}
+
 		if len(own) == 0 || !ctx.rec {
 			return // no recording function installed (yet, or any more): nothing can be demanded of the trace
 		}
@@ -872,6 +945,35 @@ func (s *sys) endCall(r result) {
 		}
 
 		s.faultClass = s.faultFn.String() + "|" + ctx.Via + "." + ctx.Method + "|" + s.EName + "|" + outcome
+	}
+}
+
+// checkEffects: a composite that the property lists as built on primitives
+// has returned under a recording function; every change of the base state it
+// made must follow the consultation of a primitive id (builtOnPrimitives).
+func (s *sys) checkEffects(ctx callCtx, r result) {
+	s.noteEffect(baseState(s.impl.base))
+
+	ctx.Variant = ""
+	want := "every change of the base follows the consultation of a primitive id"
+
+	var seen []string
+	for _, c := range s.trace[ctx.from:] {
+		seen = append(seen, c.Fn.String())
+	}
+
+	detail := "consultations: " + strings.Join(seen, ",") + "; result of the call: " + r.Res.String()
+
+	if s.effFirst {
+		s.addViol(s.sig(ctx, "effect-without-primitive", want, "base changed before any consultation"), detail)
+	}
+
+	for _, c := range s.trace[ctx.from:] {
+		if c.Eff && compositeFn[c.Fn] {
+			s.addViol(s.sig(ctx, "effect-without-primitive", want, "base changed after "+c.Fn.String()+" only"),
+				"the base changed between the consultation of "+c.Fn.String()+" and the next one (or the return): the primitive that made the change was never put to the failure function, "+
+					"which therefore cannot make it fail; "+detail)
+		}
 	}
 }
 
